@@ -70,6 +70,19 @@ CHECKS = [
   "note": COMMON_NOTE + " Streams in one dict are distinct objects with their own generators; the fallback updater is an interface "
           "contract (user supplied updaters are outside the closed world); effect catalogue of primitives is trusted.",
   "technique": "deductive verification: functional postconditions + determinism effect check + loop invariant; z3 (strings) + cvc5"},
+ {"property_id": "C18",
+  "text": "set_value of every parameter class (base, int, float, str, bool, selection list / unit, map) is verified against 'read-only or "
+          "invalid for the declared rule => raises with the value unchanged (strict frame); otherwise value := argument and the rule "
+          "holds'; modifies = {_value} so the default never changes, and a frame scan shows default/read-only are constructor-only. "
+          "Map get/remove by (dotted) key: the non-dotted case is whole-view (exactly that entry), the dotted case recurses through the "
+          "callee contract. Model level: add/set/get_parameter contracts and the lemma 'get after set returns the value set' (closed-world "
+          "dispatch over all parameter classes).",
+  "design_ref": "DESIGN.md section 6 C18",
+  "note": COMMON_NOTE + " NOT yet under proof (kept as assumed callee contracts, see DESIGN 11): the parameter constructors and "
+          "InputParameterMap.add (duplicate refusal, priority order with stable ties); InputParameterQuantity.set_value is an assumed "
+          "contract. Values are plain python values (not Quantity instances) except for the quantity parameter. Strings in "
+          "sequences/dict keys are modelled by ids (z3 5.1 is unsound on sequences of strings).",
+  "technique": "deductive verification: per-class validity invariant + strict frames, closed-world dispatch, lemma program for the model round trip; z3 + cvc5"},
 ]
 _claimed = {c["property_id"] for c in CHECKS}
 NOT_APPLICABLE = [
